@@ -165,7 +165,39 @@ def check_parse(part, make, loc, inst, version, key, case, feat, prefix):
         part.violation("C03/content/%s/%s" % (kind, feat if kind != "added" else "property=" + p), "re-serialization does not reproduce the input content", dict(case, path=path), exp, obs)
 
 
+def run_cross_version_history(case, part):
+    """HISTORY: identifiers that STIX 2.1 allows and 2.0 does not (UUIDv1 / v3 / v5) are first shown to the 2.0 side of the library - as an object id and inside
+    references, strict and relaxed - and only then used by valid 2.1 content, which must be accepted exactly as from a fresh process."""
+    import stix2
+    import uuid
+    env.reset()
+    key = case["key"]
+    g21, g20 = gen.Gen("2.1"), gen.Gen("2.0")
+    base = g21.minimal(key)
+    if "id" not in base:
+        return
+    for ucls, u in (("uuid1", "e1d2f3a4-5b6c-11ea-8d7e-" + "%012x" % (abs(hash(key)) % 16 ** 12)), ("uuid5", str(uuid.uuid5(uuid.NAMESPACE_DNS, key))), ("uuid3", str(uuid.uuid3(uuid.NAMESPACE_DNS, key)))):
+        ident20 = dict(g20.minimal("objects:identity"), id="identity--" + u)
+        rel20 = dict(g20.minimal("objects:relationship"), source_ref="%s--%s" % (base["type"], u), created_by_ref="identity--" + u)
+        for doc in (ident20, rel20, dict(ident20, id="%s--%s" % (base["type"], u), type=base["type"])):
+            for kw in ({"allow_custom": False}, {"allow_custom": True}, {"allow_custom": False, "version": "2.0"}):
+                try:
+                    stix2.parse(copy.deepcopy(doc), **kw)
+                except Exception:
+                    pass
+        inst = copy.deepcopy(base)
+        inst["id"] = "%s--%s" % (inst["type"], u)
+        if "created_by_ref" in model.spec("2.1").classes[key]["properties"]:
+            inst["created_by_ref"] = "identity--" + u
+        if model.validate(inst, "2.1"):
+            continue
+        check_parse(part, lambda inst=inst: copy.deepcopy(inst), (), inst, "2.1", key, dict(case, id_class=ucls, context="parse(dict)"), "non-v4-identifier-after-2.0-refusal/" + ucls, "hist:")
+        check_parse(part, lambda inst=inst: json.dumps(inst), (), inst, "2.1", key, dict(case, id_class=ucls, context="parse(text)"), "non-v4-identifier-after-2.0-refusal/" + ucls, "hist:")
+
+
 def run_any(case, part):
+    if case.get("kind") == "cross-version-history":
+        return run_cross_version_history(case, part)
     if case.get("kind") == "ts-sweep":
         return run_ts_sweep(case, part)
     if case.get("kind") == "granular-extra":
@@ -174,7 +206,7 @@ def run_any(case, part):
 
 
 def replay(case, part):
-    run_any({k: v for k, v in case.items() if k not in ("context", "selector", "path", "marking")}, part)
+    run_any({k: v for k, v in case.items() if k not in ("context", "selector", "path", "marking", "id_class")}, part)
 
 
 def run(run):
@@ -191,7 +223,7 @@ def run(run):
     run.mode = "DEV"
     run.rule = ("valid instances from the frozen spec model: per type minimal, maximal, minimal + each optional property x every value of its alphabet%s, each extension; "
                 "x 3-4 entry contexts; + one granular-marking variant per addressable path of every minimal/maximal instance (and of bases with >= 11 list elements / keys extending a sibling key); "
-                "+ every 4-digit, every %s 5-digit and every %s 6-digit second fraction in 4 timestamp properties; states = distinct accepted serializations"
+                "+ every 2.1 type with UUIDv1/v3/v5 identifiers that were first refused on the 2.0 side (history); + every 4-digit, every %s 5-digit and every %s 6-digit second fraction in 4 timestamp properties; states = distinct accepted serializations"
                 % (", all pairs of optional properties" if th else "", "" if th else "7th", "7th" if th else "61st"))
     run.bound = {"deviations": 2 if th else 1, "instances": len(cases), "versions": ["2.0", "2.1"]}
     run.assumptions += ["frozen spec model mc/spec/stix2x.json + mc/spec/model.py (bootstrapped once, audited by hand; only unambiguously valid content is generated)",
@@ -202,6 +234,8 @@ def run(run):
             step = max(stride, (total // 64 // stride) * stride)
             for lo in range(0, total, step):
                 cases.append({"kind": "ts-sweep", "version": version, "key": key, "prop": prop, "digits": digits, "stride": stride, "lo": lo, "hi": min(lo + step, total)})
+    for key in gen.Gen("2.1").top_keys():
+        cases.append({"kind": "cross-version-history", "key": key})
     for version, which in (("2.0", "long-lists"), ("2.1", "long-lists"), ("2.1", "prefix-keys"), ("2.1", "long-nested-list")):
         cases.append({"kind": "granular-extra", "version": version, "which": which})
     run.pmap(run_any, cases)
